@@ -7,7 +7,7 @@ from the documented behaviour of the interface (docstrings of _IntegerBase.py / 
 """
 from vf.pyvc.contracts import Contract, ClassContract
 from .base import base_registry
-from ._intcommon import add_entropy_model, add_lemmas, lemma_units, class_value, sys_untouched, LEMMA_TEXT   # noqa  (registers the spec forms)
+from ._intcommon import add_entropy_model, add_lemmas, lemma_units, use_lean_number_contracts, class_value, sys_untouched, LEMMA_TEXT   # noqa  (registers the spec forms)
 
 M = 'Crypto.Math.'
 IN = M + '_IntegerNative.IntegerNative'
@@ -297,7 +297,7 @@ def random_contracts(reg, cls=IN):
 def registry(self_class=IN):
     """self_class: the class of `self` and of Integer operands when the IntegerNative methods are verified (IntegerCustom
     inherits them: contracts/integer_gmp.py)"""
-    reg = add_lemmas(add_entropy_model(base_registry()))
+    reg = use_lean_number_contracts(add_lemmas(add_entropy_model(base_registry())))
     reg.add(ClassContract(IN, fields={'_value': 'int'}))
     reg.add(ClassContract(IC, fields={'_value': 'int'}))
     interface_contracts(reg, IN, FRAME['native'], self_type=('obj:' + self_class) if self_class != IN else None, per_method=NATIVE_HELP)
